@@ -1,4 +1,364 @@
-//! C33: not built yet.
-use crate::util::Ctx;
+//! C33 — generated responses match the operation's shape.
+//! Stream `c33.build`: (schema, typed operation, configuration, scripted randomness) ↦ response JSON
+//! (the Lean model of apollo-smith's response.rs replays the same draws).
+//! Oracle on the implementation: an independent shape checker written from the property text
+//! (response keys of CollectFields for some possible concrete type, list nesting exactly as the field
+//! type, no null at non-null positions, defined enum values, JSON kinds of built-in scalars, __typename a
+//! possible type), and execution of the operation by apollo-compiler over the generated data.
+use crate::util::*;
+use apollo_compiler::executable::{Field, Selection, SelectionSet};
+use apollo_compiler::resolvers::{Execution, FieldError, ObjectValue, ResolveInfo, ResolvedValue};
+use apollo_compiler::schema::ExtendedType;
+use apollo_compiler::validation::Valid;
+use apollo_compiler::{ast::Type, ExecutableDocument, Schema};
+use apollo_smith::{RandomProvider, ResponseBuilder, ResponseError};
+use serde_json_bytes::Value;
+use std::fmt::Write;
 
-pub fn run(_ctx: &mut Ctx) {}
+const SCHEMAS: &[&str] = &[
+    // nested lists, enums, custom scalar
+    "type Query { a: Int b: [Int] c: [[Int!]] d: [[String]!]! e: E! f: [E!]! g: C h: ID! i: Float j: Boolean! k: String o: O os: [O!] oss: [[O]] }
+     type O { a: Int c: [[Int!]] e: E! o: O os: [O!] k: String! }
+     enum E { RED GREEN BLUE } scalar C",
+    // interfaces (also implementing interfaces) and unions
+    "type Query { n: Node! ns: [Node] u: U us: [[U!]!] r: Res! p: P }
+     interface Node { id: ID! }
+     interface Res implements Node { id: ID! url: String }
+     type P implements Node { id: ID! name: String friend: Node }
+     type Img implements Res & Node { id: ID! url: String w: Int }
+     type Doc implements Res & Node { id: ID! url: String pages: [Int!]! }
+     type Lone { x: Int }
+     union U = P | Img | Lone",
+    // mutation + subscription roots, single-member union, interface with one implementer
+    "schema { query: Q mutation: M subscription: S }
+     type Q { v: V }
+     type M { set: V! many: [V!]! }
+     type S { tick: [[V]] }
+     interface I { z: Int }
+     type V implements I { z: Int w: W i: I }
+     union W = V",
+];
+
+struct ScriptRng { state: Rng, log: Vec<u64> }
+impl ScriptRng {
+    fn draw(&mut self, n: u64) -> u64 { let v = if n == 0 { 0 } else { self.state.next() % n }; self.log.push(v); v }
+}
+impl RandomProvider for ScriptRng {
+    fn gen_bool(&mut self) -> Result<bool, ResponseError> { Ok(self.draw(2) == 1) }
+    fn gen_i32_range(&mut self, min: i32, max: i32) -> Result<i32, ResponseError> { Ok(min + self.draw((max - min) as u64 + 1) as i32) }
+    fn gen_usize_range(&mut self, min: usize, max: usize) -> Result<usize, ResponseError> { Ok(min + self.draw((max - min) as u64 + 1) as usize) }
+    fn gen_f64_range(&mut self, _min: f64, _max: f64) -> Result<f64, ResponseError> { self.draw(1); Ok(0.5) }
+    fn gen_alphanumeric_char(&mut self) -> Result<char, ResponseError> { Ok((b'a' + self.draw(26) as u8) as char) }
+    fn choose_index(&mut self, len: usize) -> Result<usize, ResponseError> { if len == 0 { return Err(ResponseError::EmptyChoose); } Ok(self.draw(len as u64) as usize) }
+    fn ratio(&mut self, numerator: u32, denominator: u32) -> Result<bool, ResponseError> { Ok(self.draw(denominator as u64) < numerator as u64) }
+}
+
+// ---------- type-directed operation generator (valid by construction, then validated) ----------
+struct OpGen<'a> { r: &'a mut Rng, schema: &'a Schema, frags: Vec<String>, nfrag: usize }
+impl<'a> OpGen<'a> {
+    fn possible(&self, ty: &str) -> Vec<String> {
+        match self.schema.types.get(ty) {
+            Some(ExtendedType::Object(_)) => vec![ty.to_string()],
+            Some(ExtendedType::Interface(_)) => self.schema.types.iter().filter_map(|(n, t)| match t { ExtendedType::Object(o) if o.implements_interfaces.contains(ty) => Some(n.to_string()), _ => None }).collect(),
+            Some(ExtendedType::Union(u)) => u.members.iter().map(|m| m.name.to_string()).collect(),
+            _ => vec![],
+        }
+    }
+    /// type conditions that may be spread inside `ty`: the type itself, its possible types, interfaces they implement
+    fn conditions(&self, ty: &str) -> Vec<String> {
+        let mut out = vec![ty.to_string()];
+        for p in self.possible(ty) {
+            if !out.contains(&p) { out.push(p.clone()); }
+            if let Some(ExtendedType::Object(o)) = self.schema.types.get(p.as_str()) { for i in &o.implements_interfaces { let i = i.name.to_string(); if !out.contains(&i) { out.push(i); } } }
+        }
+        // unions containing a possible type
+        for (n, t) in &self.schema.types { if let ExtendedType::Union(u) = t { if self.possible(ty).iter().any(|p| u.members.iter().any(|m| m.name == p.as_str())) { let n = n.to_string(); if !out.contains(&n) { out.push(n); } } } }
+        out
+    }
+    fn fields_of(&self, ty: &str) -> Vec<(String, Type)> {
+        match self.schema.types.get(ty) {
+            Some(ExtendedType::Object(o)) => o.fields.iter().map(|(n, f)| (n.to_string(), f.ty.clone())).collect(),
+            Some(ExtendedType::Interface(o)) => o.fields.iter().map(|(n, f)| (n.to_string(), f.ty.clone())).collect(),
+            _ => vec![],
+        }
+    }
+    fn selset(&mut self, ty: &str, d: usize) -> String {
+        let mut s = String::from("{");
+        let n = 1 + self.r.below(4);
+        let fields = self.fields_of(ty);
+        for _ in 0..n {
+            s.push(' ');
+            let k = self.r.below(10);
+            if k == 0 || fields.is_empty() && k < 4 { if self.r.chance(1, 3) { s.push_str("t: __typename"); } else { s.push_str("__typename"); } continue; }
+            if k <= 5 && !fields.is_empty() {
+                let (name, fty) = self.r.pick(&fields).clone();
+                if self.r.chance(1, 4) { write!(s, "x_{name}: ").unwrap(); }
+                s.push_str(&name);
+                let inner = fty.inner_named_type().to_string();
+                let composite = matches!(self.schema.types.get(inner.as_str()), Some(ExtendedType::Object(_) | ExtendedType::Interface(_) | ExtendedType::Union(_)));
+                if composite { s.push(' '); if d >= 4 { s.push_str("{ __typename }"); } else { let sub = self.selset(&inner, d + 1); s.push_str(&sub); } }
+                continue;
+            }
+            let conds = self.conditions(ty);
+            let c = self.r.pick(&conds).clone();
+            if d >= 4 { s.push_str("__typename"); continue; }
+            if k == 6 { let sub = self.selset(ty, d + 1); write!(s, "... {sub}").unwrap(); }
+            else if k <= 8 { let sub = self.selset(&c, d + 1); write!(s, "... on {c} {sub}").unwrap(); }
+            else { let sub = self.selset(&c, d + 1); let name = format!("F{}", self.nfrag); self.nfrag += 1; self.frags.push(format!("fragment {name} on {c} {sub}")); write!(s, "...{name}").unwrap(); }
+        }
+        s.push_str(" }");
+        s
+    }
+}
+
+// ---------- encoding of schema and typed document for the Lean model ----------
+fn enc_ty(t: &Type, out: &mut String) {
+    match t { Type::Named(n) => { write!(out, "n{n};").unwrap() } Type::NonNullNamed(n) => { write!(out, "N{n};").unwrap() }
+        Type::List(t) => { out.push('l'); enc_ty(t, out) } Type::NonNullList(t) => { out.push('L'); enc_ty(t, out) } }
+}
+fn enc_selset(ss: &SelectionSet, out: &mut String) {
+    write!(out, "{{{}|", ss.ty).unwrap();
+    for sel in &ss.selections {
+        match sel {
+            Selection::Field(f) => {
+                write!(out, "F{},{},", f.alias.as_ref().map(|a| a.as_str()).unwrap_or("-"), f.name).unwrap();
+                enc_ty(f.ty(), out);
+                if f.selection_set.is_empty() { out.push('.'); } else { enc_selset(&f.selection_set, out); }
+            }
+            Selection::FragmentSpread(s) => { write!(out, "S{};", s.fragment_name).unwrap() }
+            Selection::InlineFragment(i) => { write!(out, "I{}", i.type_condition.as_ref().map(|a| a.as_str()).unwrap_or("-")).unwrap(); enc_selset(&i.selection_set, out) }
+        }
+    }
+    out.push('}');
+}
+fn enc_schema(schema: &Schema) -> String {
+    let mut parts = vec![];
+    for (n, t) in &schema.types {
+        if n.starts_with("__") { continue; }
+        parts.push(match t {
+            ExtendedType::Scalar(_) => format!("S:{n}"),
+            ExtendedType::Enum(e) => format!("E:{n}:{}", e.values.keys().map(|k| k.to_string()).collect::<Vec<_>>().join(",")),
+            ExtendedType::Object(o) => format!("O:{n}:{}", o.implements_interfaces.iter().map(|k| k.name.to_string()).collect::<Vec<_>>().join(",")),
+            ExtendedType::Interface(_) => format!("I:{n}"),
+            ExtendedType::Union(u) => format!("U:{n}:{}", u.members.iter().map(|k| k.name.to_string()).collect::<Vec<_>>().join(",")),
+            ExtendedType::InputObject(_) => format!("X:{n}"),
+        });
+    }
+    parts.join(";")
+}
+
+// ---------- independent shape checker ----------
+struct Shape<'a> { schema: &'a Schema, doc: &'a ExecutableDocument }
+impl<'a> Shape<'a> {
+    fn possible(&self, ty: &str) -> Vec<String> {
+        match self.schema.types.get(ty) {
+            Some(ExtendedType::Object(_)) => vec![ty.to_string()],
+            Some(ExtendedType::Interface(_)) => self.schema.types.iter().filter_map(|(n, t)| match t { ExtendedType::Object(o) if o.implements_interfaces.contains(ty) => Some(n.to_string()), _ => None }).collect(),
+            Some(ExtendedType::Union(u)) => u.members.iter().map(|m| m.name.to_string()).collect(),
+            _ => vec![],
+        }
+    }
+    /// DoesFragmentTypeApply(objectType, fragmentType)
+    fn applies(&self, object: &str, cond: &str) -> bool { self.possible(cond).iter().any(|p| p == object) }
+    /// CollectFields for a concrete object type (no @skip/@include in generated operations): ordered groups
+    fn collect(&self, object: &str, sels: &[&'a Selection], out: &mut Vec<(String, Vec<&'a Field>)>, visited: &mut Vec<String>) {
+        for sel in sels {
+            match sel {
+                Selection::Field(f) => { let key = f.response_key().to_string(); if let Some(g) = out.iter_mut().find(|(k, _)| *k == key) { g.1.push(f); } else { out.push((key, vec![f])); } }
+                Selection::FragmentSpread(s) => {
+                    let name = s.fragment_name.to_string();
+                    if visited.contains(&name) { continue; }
+                    visited.push(name);
+                    if let Some(fr) = self.doc.fragments.get(&s.fragment_name) { if self.applies(object, fr.type_condition()) { let v: Vec<&Selection> = fr.selection_set.selections.iter().collect(); self.collect(object, &v, out, visited); } }
+                }
+                Selection::InlineFragment(i) => { if i.type_condition.as_ref().map(|c| self.applies(object, c)).unwrap_or(true) { let v: Vec<&Selection> = i.selection_set.selections.iter().collect(); self.collect(object, &v, out, visited); } }
+            }
+        }
+    }
+    fn check_object(&self, declared: &str, sels: &[&'a Selection], v: &Value, path: &str) -> Result<(), String> {
+        let Some(map) = v.as_object() else { return Err(format!("{path}: expected an object for type {declared}, got {v}")) };
+        let mut errs = vec![];
+        for object in self.possible(declared) {
+            match self.check_object_as(&object, sels, map, path) { Ok(()) => return Ok(()), Err(e) => errs.push(format!("as {object}: {e}")) }
+        }
+        Err(format!("{path}: object does not match any possible type of {declared}: {}", errs.join(" / ")))
+    }
+    fn check_object_as(&self, object: &str, sels: &[&'a Selection], map: &serde_json_bytes::Map<serde_json_bytes::ByteString, Value>, path: &str) -> Result<(), String> {
+        let mut groups = vec![];
+        self.collect(object, sels, &mut groups, &mut vec![]);
+        let keys: Vec<&str> = map.keys().map(|k| k.as_str()).collect();
+        let want: Vec<&str> = groups.iter().map(|(k, _)| k.as_str()).collect();
+        let mut a = keys.clone(); a.sort(); let mut b = want.clone(); b.sort();
+        if a != b { return Err(format!("{path}: response keys {keys:?}, CollectFields gives {want:?}")); }
+        for (key, fields) in &groups {
+            let v = map.get(key.as_str()).unwrap();
+            let f = fields[0];
+            let p = format!("{path}.{key}");
+            if f.name == "__typename" { if v.as_str() != Some(object) { return Err(format!("{p}: __typename {v} but the other keys fit {object}")); } continue; }
+            let sub: Vec<&Selection> = fields.iter().flat_map(|f| f.selection_set.selections.iter()).collect();
+            self.check_value(f.ty(), &sub, v, &p)?;
+        }
+        Ok(())
+    }
+    fn check_value(&self, ty: &Type, sub: &[&'a Selection], v: &Value, path: &str) -> Result<(), String> {
+        if v.is_null() { return if ty.is_non_null() { Err(format!("{path}: null at non-null position of type {ty}")) } else { Ok(()) }; }
+        match ty {
+            Type::List(inner) | Type::NonNullList(inner) => {
+                let Some(items) = v.as_array() else { return Err(format!("{path}: type {ty} needs a list, got {v}")) };
+                for (i, item) in items.iter().enumerate() { self.check_value(inner, sub, item, &format!("{path}[{i}]"))?; }
+                Ok(())
+            }
+            Type::Named(n) | Type::NonNullNamed(n) => {
+                if v.as_array().is_some() { return Err(format!("{path}: type {ty} is not a list but the value is {v}")); }
+                match self.schema.types.get(n) {
+                    Some(ExtendedType::Enum(e)) => match v.as_str() { Some(s) if e.values.contains_key(s) => Ok(()), _ => Err(format!("{path}: {v} is not a value of enum {n}")) },
+                    Some(ExtendedType::Scalar(_)) => {
+                        let ok = match n.as_str() {
+                            "Int" => v.as_i64().map(|i| i >= i32::MIN as i64 && i <= i32::MAX as i64).unwrap_or(false),
+                            "Float" => v.is_number(),
+                            "String" => v.is_string(),
+                            "Boolean" => v.is_boolean(),
+                            "ID" => v.is_string() || v.as_i64().is_some(),
+                            _ => true,
+                        };
+                        if ok { Ok(()) } else { Err(format!("{path}: {v} is not a valid {n}")) }
+                    }
+                    Some(_) => self.check_object(n, sub, v, path),
+                    None => Err(format!("{path}: unknown type {n}")),
+                }
+            }
+        }
+    }
+    /// the concrete object type a generated object stands for (first possible type that fits)
+    fn concrete_of(&self, declared: &str, sels: &[&'a Selection], v: &Value) -> Option<String> {
+        let map = v.as_object()?;
+        self.possible(declared).into_iter().find(|o| self.check_object_as(o, sels, map, "").is_ok())
+    }
+}
+
+// ---------- serving the generated data to apollo-compiler's executor ----------
+struct JsonObj<'a> { ty: String, map: &'a serde_json_bytes::Map<serde_json_bytes::ByteString, Value>, shape: &'a Shape<'a> }
+fn resolved<'a>(shape: &'a Shape<'a>, ty: &Type, sub: Vec<&'a Selection>, v: &'a Value) -> ResolvedValue<'a> {
+    if v.is_null() { return ResolvedValue::null(); }
+    match ty {
+        Type::List(inner) | Type::NonNullList(inner) => {
+            let inner: Type = (**inner).clone();
+            match v.as_array() {
+                Some(items) => { let it: Vec<Result<ResolvedValue<'a>, FieldError>> = items.iter().map(|i| Ok(resolved(shape, &inner, sub.clone(), i))).collect(); ResolvedValue::List(Box::new(it.into_iter())) }
+                None => ResolvedValue::leaf(v.clone()),
+            }
+        }
+        Type::Named(n) | Type::NonNullNamed(n) => match (shape.schema.types.get(n), v.as_object()) {
+            (Some(ExtendedType::Object(_) | ExtendedType::Interface(_) | ExtendedType::Union(_)), Some(map)) => {
+                let ty = shape.concrete_of(n, &sub, v).unwrap_or_else(|| n.to_string());
+                ResolvedValue::object(JsonObj { ty, map, shape })
+            }
+            _ => ResolvedValue::leaf(v.clone()),
+        },
+    }
+}
+impl<'a> ObjectValue for JsonObj<'a> {
+    fn type_name(&self) -> &str { &self.ty }
+    fn resolve_field<'b>(&'b self, info: &'b ResolveInfo<'b>) -> Result<ResolvedValue<'b>, FieldError> {
+        let f = info.field_selections()[0];
+        let key = f.response_key().as_str();
+        let Some(v) = self.map.get(key) else { return Err(FieldError { message: format!("no data for {key}") }) };
+        let sub: Vec<&Selection> = info.field_selections().iter().flat_map(|f| f.selection_set.selections.iter()).collect();
+        // lifetimes: the shape (schema, document) and the data outlive the execution
+        let shape: &'b Shape<'b> = unsafe_shorten(self.shape);
+        let sub: Vec<&'b Selection> = sub.into_iter().map(|s| { let p: &'b Selection = s; p }).collect();
+        Ok(resolved(shape, f.ty(), sub, v))
+    }
+}
+fn unsafe_shorten<'b, 'a: 'b>(s: &'b Shape<'a>) -> &'b Shape<'b> { s }
+
+fn json_text(v: &Value) -> String { serde_json::to_string(v).unwrap_or_else(|_| "?".into()) }
+
+fn run_one(ctx: &mut Ctx, schema: &Valid<Schema>, schema_enc: &str, src: &str, doc: &Valid<ExecutableDocument>, opname: Option<&str>, cfg: (usize, usize, Option<(u32, u32)>), seed: u64) {
+    let Ok(op) = doc.operations.get(opname) else { return };
+    let mut rng = ScriptRng { state: Rng(seed), log: vec![] };
+    let (minl, maxl, nr) = cfg;
+    let built = catch(|| {
+        let mut b = ResponseBuilder::new(&mut rng, doc, schema).with_min_list_size(minl).with_max_list_size(maxl).with_operation_name(opname);
+        if let Some((n, d)) = nr { b = b.with_null_ratio(n, d); }
+        b.build_data()
+    });
+    let input = format!("schema#{} op={:?} cfg={cfg:?} seed={seed} src={src}", schema_enc.len(), opname);
+    let data = match built {
+        Ok(Ok(v)) => v,
+        Ok(Err(e)) => { ctx.stat("build_error"); ctx.fail("build-error", &input, &format!("{e}")); return }
+        Err(m) => { ctx.fail("build-panic", &input, &m); return }
+    };
+    // correspondence
+    let mut docenc = String::new();
+    enc_selset(&op.selection_set, &mut docenc);
+    let frags: Vec<String> = doc.fragments.iter().map(|(n, f)| { let mut s = format!("{n}~{}~", f.type_condition()); enc_selset(&f.selection_set, &mut s); s }).collect();
+    let script: Vec<String> = rng.log.iter().map(|x| x.to_string()).collect();
+    let cfg_s = format!("{minl},{maxl},{}", nr.map(|(n, d)| format!("{n}/{d}")).unwrap_or_else(|| "-".into()));
+    ctx.case("c33.build", &[format!("={schema_enc}"), format!("={docenc}"), format!("={}", frags.join("^")), format!("={cfg_s}"), format!("={}", script.join(","))], &json_text(&data));
+    ctx.stat("responses");
+    ctx.stat_n("draws", rng.log.len() as u64);
+    // oracle 1: shape
+    let shape = Shape { schema, doc };
+    let sels: Vec<&Selection> = op.selection_set.selections.iter().collect();
+    let shape_ok = match shape.check_object(op.selection_set.ty.as_str(), &sels, &data, "data") {
+        Ok(()) => true,
+        Err(e) => {
+            let key = if e.contains("needs a list") || e.contains("is not a list") || e.contains("is not a valid") && e.contains('[') { "list-nesting" } else if e.contains("null at non-null") { "null-at-non-null" } else if e.contains("response keys") || e.contains("does not match any possible type") { "response-keys" } else if e.contains("enum") { "enum-value" } else { "shape" };
+            ctx.fail(key, &input, &format!("{e}; data {}", json_text(&data)));
+            false
+        }
+    };
+    if json_text(&data).contains('[') { ctx.nontrivial(&json_text(&data)); }
+    // oracle 2: executing the operation over this data reproduces it without errors
+    if shape_ok {
+        if let Some(map) = data.as_object() {
+            let root = JsonObj { ty: op.selection_set.ty.to_string(), map, shape: &shape };
+            let exec = catch(|| Execution::new(schema, doc).operation(op).execute_sync(&root));
+            match exec {
+                Ok(Ok(resp)) => {
+                    let got = resp.data.map(Value::Object).unwrap_or(Value::Null);
+                    if !resp.errors.is_empty() { ctx.fail("replay-errors", &input, &format!("executing over the generated data gives errors: {:?}; data {}", resp.errors.iter().map(|e| e.message.clone()).collect::<Vec<_>>(), json_text(&data))); }
+                    else if got != data { ctx.fail("replay-differs", &input, &format!("generated {} executed {}", json_text(&data), json_text(&got))); }
+                    ctx.stat("replays");
+                }
+                Ok(Err(e)) => ctx.fail("replay-request-error", &input, &format!("{e:?}")),
+                Err(m) => ctx.fail("replay-panic", &input, &m),
+            }
+        }
+    }
+}
+
+const FIXED_OPS: &[(usize, &str)] = &[
+    (0, "{ a b c d e f g h i j k }"), (0, "{ c d oss { c } os { os { k } } }"), (0, "{ o { a } o { k } x_o: o { e } }"), (0, "{ __typename t: __typename o { __typename } }"),
+    (1, "{ n { id __typename } ns { id ... on P { name } ... on Res { url } } }"), (1, "{ u { __typename ... on P { name } ... on Img { w } } us { ... on Lone { x } ...F } } fragment F on Node { id }"),
+    (1, "{ r { id url ... on Doc { pages } ... on Img { w } } p { friend { id ... on P { friend { id } } } } }"), (1, "{ us { __typename } u { ... on Node { id } } }"),
+    (2, "{ v { z w { ... on V { z } } i { z } } }"), (2, "mutation { set { z } many { z w { __typename } } }"), (2, "subscription { tick { z } }"),
+];
+
+pub fn run(ctx: &mut Ctx) {
+    let cfgs: [(usize, usize, Option<(u32, u32)>); 6] = [(0, 5, None), (1, 3, None), (2, 2, Some((1, 2))), (0, 0, None), (0, 3, Some((1, 1))), (1, 2, Some((1, 3)))];
+    let schemas: Vec<Valid<Schema>> = SCHEMAS.iter().map(|s| Schema::parse_and_validate(*s, "s.graphql").expect("fixed schema validates")).collect();
+    let encs: Vec<String> = schemas.iter().map(|s| enc_schema(s)).collect();
+    for (si, src) in FIXED_OPS {
+        let doc = ExecutableDocument::parse_and_validate(&schemas[*si], *src, "q.graphql").expect("fixed operation validates");
+        for (ci, cfg) in cfgs.iter().enumerate() { for seed in 0..4u64 { run_one(ctx, &schemas[*si], &encs[*si], src, &doc, None, *cfg, seed * 7 + ci as u64 + 1); } }
+    }
+    let n = if ctx.thorough { 40_000 } else { 3_000 };
+    for i in 0..n {
+        let si = ctx.rng.below(schemas.len());
+        let schema = &schemas[si];
+        let mut r = Rng(ctx.rng.next());
+        let root_kind = if si == 2 { *r.pick(&["query", "mutation", "subscription"]) } else { "query" };
+        let root_ty = match root_kind { "mutation" => "M", "subscription" => "S", _ => if si == 2 { "Q" } else { "Query" } };
+        let (body, frags) = { let mut g = OpGen { r: &mut r, schema, frags: vec![], nfrag: 0 }; let b = g.selset(root_ty, 0); (b, g.frags) };
+        // a subscription must have a single root field
+        let body = if root_kind == "subscription" { "{ tick { z w { __typename } } }".to_string() } else { body };
+        let src = format!("{root_kind} {body} {}", frags.join(" "));
+        let doc = match ExecutableDocument::parse_and_validate(schema, &src, "q.graphql") { Ok(d) => d, Err(_) => { ctx.stat("generated_invalid"); continue } };
+        ctx.stat("generated_valid");
+        let cfg = cfgs[i % cfgs.len()];
+        let seed = ctx.rng.next();
+        run_one(ctx, schema, &encs[si], &src, &doc, None, cfg, seed);
+    }
+}
